@@ -104,6 +104,7 @@ typedef struct { long j, usepr, old, diag, ncand, piv, usepr_out, pn; double thr
 static pivrec_t *pivlog; static long npiv, cappiv;
 #define MAXSNAP 4000
 static long *snaps[MAXSNAP]; static long nsnap;
+static long stask[MAXSNAP]; static long nstask;
 #define MAXBUMP 20000
 static long bumplog[2][MAXBUMP][3]; static long nbump[2];
 static __thread pivrec_t tl_piv;
@@ -151,6 +152,8 @@ static void verif_cb(int ev, long pnum, long a, long b, long c, const void *p)
         const pxgstrf_shared_t *sh = (const pxgstrf_shared_t *) p;
         sched_calls++; if (a >= 0) sched_nonempty++;
         if (sh && sh->taskq.tail > max_qtail) max_qtail = sh->taskq.tail;
+        /* raised inside the scheduler lock: the counter of untaken panels as it stands after this hand-out, in lock order */
+        if (sh && a >= 0 && nstask < MAXSNAP) stask[nstask++] = (long) sh->tasks_remain;
         break; }
     case SLU_VEV_NSUPER: __sync_fetch_and_add(&nsuper_events, 1); tl_last_nsuper = b; break;
     case SLU_VEV_LSUB: __sync_fetch_and_add(&lsub_events, 1);
@@ -240,7 +243,7 @@ static void cb_reset(case_t *c)
     if (!evbuf) evbuf = (evrec_t *) malloc(MAXEV * sizeof(evrec_t));
     nev = 0; slot_overrun = 0; slot_overrun_col = -1; nsuper_events = lsub_events = order_inversions = 0;
     thread_begin = thread_end = sched_calls = sched_nonempty = 0; max_qtail = 0; last_nsuper_of_lsub = -1; nbump[0] = nbump[1] = 0;
-    for (i = 0; i < nsnap; ++i) free(snaps[i]); nsnap = 0;
+    for (i = 0; i < nsnap; ++i) free(snaps[i]); nsnap = 0; nstask = 0;
     for (i = 0; i < npiv; ++i) { free(pivlog[i].rows); free(pivlog[i].vals); } npiv = 0;
     tl_init = 0; (void) i;
 #ifdef SLU_MT_VERIF
@@ -265,6 +268,7 @@ static void cb_print(case_t *c)
     if (c->trace & 4) { printf("\"map_in_sup\":["); for (i = 0; i <= c->n && init_map_n >= 0; ++i) printf("%s%ld", i ? "," : "", init_map[i]); printf("],"); }
     printf("\"release_not_once\":%ld,\"release_bad_col\":%ld,\"thread_begin\":%ld,\"thread_end\":%ld,\"sched_calls\":%ld,\"sched_nonempty\":%ld,\"max_qtail\":%ld,\"slot_overrun\":%ld,\"slot_overrun_col\":%ld,\"nsuper_events\":%ld,\"lsub_events\":%ld,",
            bad_rel, bad_rel_col, thread_begin, thread_end, sched_calls, sched_nonempty, max_qtail, slot_overrun, slot_overrun_col, nsuper_events, lsub_events);
+    printf("\"sched_tasks\":["); for (i = 0; i < nstask; ++i) printf("%s%ld", i ? "," : "", stask[i]); printf("],");
     {   int w; long k2;
         for (w = 0; w < 2; ++w) {
             printf("\"%s\":[", w ? "bump_l" : "bump_u");
